@@ -89,19 +89,17 @@ _unused: HashMismatch
 //@ spec
     ensures
         // C25 (mutated delta lists): Ok only if no listed delta contradicts the hash remembered for its serial
-        res is Ok ==> forall|i: int| 0 <= i < self.content.deltas_spec().len() ==> {
-            let d = #[trigger] self.content.deltas_spec()[i];
-            state.delta_state@.contains_key(d.serial_spec()) ==> state.delta_state@[d.serial_spec()] == d.hash_spec()
-        },
+        res is Ok ==> forall|i: int| 0 <= i < self.content.deltas_spec().len() ==>
+            !contradicts(#[trigger] self.content.deltas_spec()[i], state),
+        // ... and an error is DeltaMutation and is only raised for a real contradiction
+        res matches Err(r) ==> (r is DeltaMutation)
+            && exists|i: int| 0 <= i < self.content.deltas_spec().len() && contradicts(#[trigger] self.content.deltas_spec()[i], state),
 //@ loopvar 1 it
 //@ loop 1
             invariant
                 it.seq().len() == self.content.deltas_spec().len(),
                 forall|i: int| 0 <= i < it.seq().len() ==> *#[trigger] it.seq()[i] == self.content.deltas_spec()[i],
-                forall|i: int| 0 <= i < it.index@ ==> {
-                    let d = #[trigger] self.content.deltas_spec()[i];
-                    state.delta_state@.contains_key(d.serial_spec()) ==> state.delta_state@[d.serial_spec()] == d.hash_spec()
-                },
+                forall|i: int| 0 <= i < it.index@ ==> !contradicts(#[trigger] self.content.deltas_spec()[i], state),
 //@ fn RepositoryState::touch
 //@ spec
     ensures
@@ -227,10 +225,14 @@ _unused: HashMismatch
             && st.session == notify.content.session_spec() && st.serial == notify.content.serial_spec()
             && #[trigger] archive_committed(archive.path_spec(), objs, st),
         // the delta list is checked against the remembered hashes before anything is applied
-        res matches Ok(None) ==> forall|i: int| 0 <= i < notify.content.deltas_spec().len() ==> {
-            let d = #[trigger] notify.content.deltas_spec()[i];
-            state.delta_state@.contains_key(d.serial_spec()) ==> state.delta_state@[d.serial_spec()] == d.hash_spec()
-        },
+        res matches Ok(None) ==> forall|i: int| 0 <= i < notify.content.deltas_spec().len() ==>
+            !contradicts(#[trigger] notify.content.deltas_spec()[i], &state),
+        // C25 (mutated delta lists): ANY listed delta -- also one that is older than the local serial and
+        // would not be applied -- whose hash differs from the one remembered for its serial makes the
+        // update fall back to the snapshot with reason DeltaMutation (unless the list is oversized)
+        (notify.content.delta_status_spec() is Ok
+            && exists|i: int| 0 <= i < notify.content.deltas_spec().len() && contradicts(#[trigger] notify.content.deltas_spec()[i], &state))
+            ==> (res matches Ok(Some(r)) && r is DeltaMutation),
         // frame
         final(self).collector == old(self).collector, final(self).path == old(self).path,
         final(self).rpki_notify == old(self).rpki_notify,
@@ -247,6 +249,8 @@ _unused: HashMismatch
                     count == deltas@.len(),
                     archive.path_spec() == path0,
                     notify.content.session_spec() == state.session,
+                    forall|i: int| 0 <= i < notify.content.deltas_spec().len() ==>
+                        !contradicts(#[trigger] notify.content.deltas_spec()[i], &state),
                     // C25: the deltas applied so far, each completely, in list order
                     chain_n(a0, archive.objects(), state.session, deltas@, it.index@ as int),
                     self.collector == old(self).collector, self.path == old(self).path,
@@ -317,6 +321,11 @@ spec fn update_ok(current: Option<(RrdpArchive, RepositoryState)>, path: PathBuf
 spec fn delta_path(ds: Seq<DeltaInfo>, from: u64, to: u64) -> bool {
     &&& from + ds.len() == to
     &&& forall|i: int| 0 <= i < ds.len() ==> (#[trigger] ds[i]).serial_spec() == from + 1 + i
+}
+
+// the notification lists delta `d` with a hash different from the one remembered for its serial
+spec fn contradicts(d: DeltaInfo, state: &RepositoryState) -> bool {
+    state.delta_state@.contains_key(d.serial_spec()) && state.delta_state@[d.serial_spec()] != d.hash_spec()
 }
 
 spec fn is_tail(ds: Seq<DeltaInfo>, all: Seq<DeltaInfo>) -> bool {
